@@ -51,6 +51,8 @@ struct Msg {
 // to a label start that was itself reachable; names <= 255 octets; counts consistent;
 // no trailing garbage is reported via *trailing (if non-null).
 std::string decode(const std::string &wire, Msg &out, size_t *trailing = nullptr);
+// Largest accepted wire length of a name (RFC 1035: 255). The virtual servers decode leniently and report longer names separately.
+extern size_t g_max_name_octets;
 
 struct EncodeOpts {
   bool compress = true;       // use compression pointers for owner names and rdata names
